@@ -3,7 +3,7 @@
 stdin JSON: {"root": dir, "package": "google.example.library_v1", "extra_paths": [...], "calls": [spec...]}
 spec: {"service_module", "client", "transport": "grpc"|"grpc_asyncio"|"rest", "method",
        "request": {"cls": "pkg.types:Name", "b64": ...},
-       "call_kwargs": {"timeout": 20.0, "metadata": [[k, v]], "retry": {"codes": [...]}},
+       "call_kwargs": {"timeout": 20.0 | null (explicit None: no deadline), "metadata": [[k, v]], "retry": {"codes": [...]} | "none"},
        "grpc_script": {path: [reply...]}, "http_script": [reply...],
        "mode": "items" | "pages" | "items-break" | "pages-break", "break_after": n,
        "mutate_after_create": {field: value}  (set on the caller's request object right after the pager was returned),
@@ -22,7 +22,9 @@ def call_kwargs(spec, is_async):
         kw["timeout"] = ck["timeout"]
     if "metadata" in ck:
         kw["metadata"] = [tuple(x) for x in ck["metadata"]]
-    if "retry" in ck:
+    if "retry" in ck and ck["retry"] in (None, "none"):
+        kw["retry"] = None          # the caller switches retrying off
+    elif "retry" in ck:
         from google.api_core import retry as retries, retry_async, exceptions as core_exceptions
         rc = ck["retry"]
         pred = retries.if_exception_type(*[getattr(core_exceptions, n) for n in rc.get("codes", ["ServiceUnavailable"])])
